@@ -604,6 +604,14 @@ def mpc_atan(z, prec, rnd=round_fast):
     # x = 1-I*z = 1 + b - I*a
     # y = 1+I*z = 1 - b + I*a
     wp = prec + 15
+    # The logarithms are accurate in the absolute sense only: for small z
+    # (atan(z) ~ z) more bits are needed, as in mpf_atan/mpf_atanh
+    if (a[1] or not a[2]) and (b[1] or not b[2]) and (a[1] or b[1]):
+        mag = max([t[2]+t[3] for t in (a, b) if t[1]])
+        if mag < -8:
+            if mag < -wp:
+                return mpc_pos(z, prec, rnd)
+            wp += (-mag)
     x = mpf_add(fone, b, wp), mpf_neg(a)
     y = mpf_sub(fone, b, wp), a
     l1 = mpc_log(x, wp)
@@ -803,6 +811,13 @@ def mpc_acosh(z, prec, rnd=round_fast):
 def mpc_atanh(z, prec, rnd=round_fast):
     # atanh(z) = (log(1+z)-log(1-z))/2
     wp = prec + 15
+    # see mpc_atan: small arguments need more bits
+    if (z[0][1] or not z[0][2]) and (z[1][1] or not z[1][2]) and (z[0][1] or z[1][1]):
+        mag = max([t[2]+t[3] for t in z if t[1]])
+        if mag < -8:
+            if mag < -wp:
+                return mpc_pos(z, prec, rnd)
+            wp += (-mag)
     a = mpc_add(z, mpc_one, wp)
     b = mpc_sub(mpc_one, z, wp)
     a = mpc_log(a, wp)
